@@ -96,6 +96,8 @@ func main() {
 	switch os.Args[1] {
 	case "info":
 		fmt.Printf("instrumented=%v sites=%d race=%v\n", instrumented(), len(verifsim.SiteNames), raceEnabled)
+	case "session-dump":
+		sessionDumpMain(os.Args[2:])
 	case "gen-dump":
 		genDumpMain(os.Args[2:])
 	case "c10":
